@@ -33,3 +33,7 @@ def run(run):
     run.exhaustive = True
     sample_trace(run, tr, 5)
     run.add_sample(read_line(tr, n))
+    # release-style build (NDEBUG, unsigned plain char, -O2): the vectors again
+    exe2 = build_driver(run, "bits_drv_alt", "bits_drv.c", ["librfn/bitops.c"], cc=["gcc", "-std=gnu11", "-g", "-DLIBRFN_VERIF"] + ALT_FLAGS)
+    tr2 = exec_script(run, exe2, [], "Vectors %d %d\n" % (run.seed + 1, 2000), run.path("bits-alt.ndjson"), "release-build vectors", timeout=300)
+    check_trace(run, "release-build-vectors", "TraceBits", "TraceBits.cfg", tr2, timeout=600)
